@@ -237,6 +237,22 @@ func (g *opGen) gen(t *rapid.T, s *State, kind string) *Op {
 			old = names[(sort.SearchStrings(names, "INBOX")+1)%len(names)]
 		}
 
+		// prefer a mailbox that has inferiors (they are renamed along with it)
+		var parents []string
+
+		for _, n := range names {
+			for _, e := range names {
+				if strings.HasPrefix(e, n+"/") {
+					parents = append(parents, n)
+					break
+				}
+			}
+		}
+
+		if len(parents) > 0 && rapid.IntRange(0, 2).Draw(t, "withInferiors") > 0 {
+			old = pick(t, "parent", parents)
+		}
+
 		var cands []string
 
 	next:
@@ -375,7 +391,15 @@ func (g *opGen) ensure(s *State, kind string) []Op {
 			{Kind: "APPEND", Box: "INBOX", Markers: []string{g.marker()}},
 		}
 
-	case "DELETE", "RENAME":
+	case "RENAME":
+		// a mailbox with an inferior
+		for _, n := range []string{"A/x", "B/c", "C/d/e", "A/z", "A/x/y"} {
+			if s.Boxes[n] == nil {
+				return []Op{{Kind: "CREATE", Box: n}}
+			}
+		}
+
+	case "DELETE":
 		for _, n := range []string{"A/x", "B/c", "D", "A/z", "C/d/e"} {
 			if s.Boxes[n] == nil {
 				return []Op{{Kind: "CREATE", Box: n}}
@@ -385,7 +409,7 @@ func (g *opGen) ensure(s *State, kind string) []Op {
 	case "CREATE":
 		return []Op{{Kind: "DELETE", Box: pickFirstNonInbox(s)}}
 
-	case "MessageUpdated", "MessageDeleted", "MessageMailboxesUpdated":
+	case "STORE", "MessageUpdated", "MessageDeleted", "MessageMailboxesUpdated":
 		return []Op{{Kind: "APPEND", Box: "INBOX", Flags: []string{`\Seen`}, Markers: []string{g.marker()}}}
 	}
 
